@@ -5,6 +5,7 @@ use crate::plangen::{SetupOpts, Weights, plan_strategy};
 use crate::props::common::{base_report, run_plan};
 use crate::runner::{Args, CaseReport, Failure, Mode, RunPlan, Spec, Tier, drive};
 use crate::world::{Plan, Regime};
+use proptest::prelude::*;
 
 pub fn exec(plan: &Plan, mode: Mode) -> Result<CaseReport, Failure> {
     let mut obs = RedeliveryObserver::default();
@@ -42,7 +43,7 @@ pub fn main(args: &Args) -> i32 {
     let spec = Spec {
         id: "C07",
         level: "exploration",
-        rule: "C01/C02-style plans with explicit re-deliveries (plus the re-offering of every event during quiescence) and forged commits that receivers refuse (rivals of the commits applied and re-delivered later); each re-delivery of an event whose earlier hand-over took effect at that client is judged by full before/after fingerprint equality; non-trivial = the client's MLS state changed between first handling and the re-delivery; distinct = distinct plans".into(),
+        rule: "C01/C02-style plans with explicit re-deliveries (plus the re-offering of every event during quiescence) and forged commits that receivers refuse (rivals of the commits applied and re-delivered later); a quarter of the histories run their memory clients with a per-group message limit of 2..7; each re-delivery of an event whose earlier hand-over took effect at that client is judged by full before/after fingerprint equality; non-trivial = the client's MLS state changed between first handling and the re-delivery; distinct = distinct plans".into(),
         assumptions: vec![
             "'took effect' = an earlier hand-over returned an application message, a commit, a pending proposal or an auto-commit".into(),
             "the returned result value itself is free".into(),
@@ -55,7 +56,16 @@ pub fn main(args: &Args) -> i32 {
         args,
         spec,
         RunPlan { cases, workers: 16 },
-        || plan_strategy(&opts, &weights, len.clone()),
+        || {
+            // a quarter of the histories give the memory clients a tiny per-group message limit:
+            // a re-delivery at a full store must not push anything out
+            (plan_strategy(&opts, &weights, len.clone()), prop_oneof![3 => Just(0usize), 1 => 2usize..8])
+                .prop_map(|(mut p, lim)| {
+                    p.setup.cfg.mem_msg_limit = lim;
+                    p
+                })
+                .boxed()
+        },
         exec,
     )
 }
